@@ -24,7 +24,9 @@ Notation length := List.length (only parsing).
 Inductive fl : Type := FHalf (z : Z)   (* the float z/2 *) | FNaN | FPInf | FNInf.
 Inductive pyval : Type := PInt (z : Z) | PFlt (f : fl) | PBool (b : bool) | PStr (s : string) | PNone.
 Inductive dtype : Type := DFloat | DInt | DBool | DStr (k : nat) | DObj.
-Inductive dreq : Type := RFloat | RInt | RBool | RStr.       (* the `dtype=` argument: float, int, bool, str *)
+Inductive dreq : Type := RFloat | RInt | RBool | RStr   (* the `dtype=` argument: float, int, bool, str *)
+  | RSub.                                               (* a sub-array dtype ('2f8', (float, 2)): astype() ADDS a dimension *)
+Definition adds_dim (r : dreq) : bool := match r with RSub => true | _ => false end.
 Inductive seqkind : Type := KList | KTuple.
 
 (* what a caller can pass as `value` *)
@@ -157,6 +159,8 @@ Definition set_adict (s : state) (a : list (string * operand)) : state :=
   mkState (span s) (index s) (vars s) (registry s) a (strict s) (kind s) (names s) (dflt s).
 Definition set_strict (s : state) (b : bool) : state :=
   mkState (span s) (index s) (vars s) (registry s) (adict s) b (kind s) (names s) (dflt s).
+Definition set_kind (s : state) (k : ckind) : state :=
+  mkState (span s) (index s) (vars s) (registry s) (adict s) (strict s) k (names s) (dflt s).
 Definition set_names (s : state) (n : list string) : state :=
   mkState (span s) (index s) (vars s) (registry s) (adict s) (strict s) (kind s) n (dflt s).
 
@@ -168,13 +172,15 @@ Definition set_dflt (s : state) (d : option dreq) : state :=
   mkState (span s) (index s) (vars s) (registry s) (adict s) (strict s) (kind s) (names s) d.
 
 (* The object keeps EVERYTHING in one __dict__: the series under '_' + name, and its own bookkeeping under `span`, `index`,
-   `_attributes`, `_strict` (models: `names`, `dtype`).  An attribute assignment that targets one of these names, or any name
-   starting with '_', is an assignment to the bookkeeping, not one of the container operations the property lists. *)
+   `_attributes`, `_strict` (models: `names`, `dtype`; linkers also `submodels` and `name`, neither of them registered in
+   `_attributes`).  An attribute assignment that targets one of these names, or any name starting with '_', is an assignment to
+   the bookkeeping, not one of the container operations the property lists. *)
 Definition underscored (x : string) : bool :=
   match x with String c _ => Ascii.eqb c "_"%char | EmptyString => false end.
 Definition bookkeeping (k : ckind) (name : string) : bool :=
   (String.eqb name "span" || String.eqb name "index" || underscored name ||
-   match k with CVC => false | _ => (String.eqb name "names" || String.eqb name "dtype")%bool end)%bool.
+   match k with CVC => false | _ => (String.eqb name "names" || String.eqb name "dtype")%bool end ||
+   match k with CLinker _ => (String.eqb name "submodels" || String.eqb name "name")%bool | _ => false end)%bool.
 
 Definition as_int_list (o : operand) : option (list Z) :=
   match o with
@@ -190,7 +196,8 @@ Definition as_str_list (o : operand) : option (list string) :=
 Definition as_dreq (o : operand) : option dreq :=        (* the Python types float / int / bool / str are written as their names *)
   match o with
   | OScalar (PStr x) => if String.eqb x "float" then Some RFloat else if String.eqb x "int" then Some RInt
-                        else if String.eqb x "bool" then Some RBool else if String.eqb x "str" then Some RStr else None
+                        else if String.eqb x "bool" then Some RBool else if String.eqb x "str" then Some RStr
+                        else if String.eqb x "2f8" then Some RSub else None
   | _ => None
   end.
 Definition tail_of (x : string) : string := match x with String _ r => r | EmptyString => EmptyString end.
@@ -561,9 +568,19 @@ Section Model.
       match as_str_list value with Some l => ok (set_adict (set_names s l) (assoc_set name value (adict s))) | None => err s OtherError end
     else if String.eqb name "dtype" then
       match as_dreq value with Some d => ok (set_adict (set_dflt s (Some d)) (assoc_set name value (adict s))) | None => err s OtherError end
+    else if String.eqb name "submodels" then                       (* (a linker: see `bookkeeping`) l.submodels = {} : `size` no longer *)
+      match value, kind s with                                     (* counts the submodels; OSeq _ [] stands for the empty mapping *)
+      | OSeq _ [], CLinker _ => ok (set_kind s (CLinker 0))
+      | _, _ => err s OtherError
+      end
+    else if String.eqb name "name" then err s OtherError           (* l.name = <a submodel's id>: `size` / `sizes` raise TypeError *)
     else if (String.eqb name "_attributes" || String.eqb name "_strict")%bool then err s OtherError
     else match assoc (tail_of name) (vars s) with
-         | Some _ => err s OtherError                              (* '_' + X : the series object of X itself is replaced *)
+         | Some _ =>                                               (* '_' + X : the series object of X itself is replaced *)
+             match value with
+             | OArr sh dt cells => ok (set_vars s (assoc_set (tail_of name) (mkVar dt sh cells) (vars s)))   (* by another array *)
+             | _ => err s OtherError                               (* by something that is no array: outside the model *)
+             end
          | None => ok (set_adict s (assoc_set name value (adict s)))
          end.
 
@@ -698,7 +715,8 @@ Section Model.
                  | Some r => let d1 := astype_dt d0 cells0 r in     (* .astype(dtype) *)
                              match cast_all (arrcast d0 d1) cells0 with
                              | Raise e => Raise e
-                             | Ret cs => Ret (d1, cs)
+                             | Ret cs => if adds_dim r then Raise DimensionError   (* fix cf99a8a: value_as_array.ndim != 1 *)
+                                         else Ret (d1, cs)
                              end
                  end) with
           | Raise e => err s e
@@ -773,7 +791,7 @@ Section Model.
     match l with [] => true | x :: r => (negb (mem x r) && dup_free r)%bool end.
 
   Definition dreq_operand (d : dreq) : operand :=
-    OScalar (PStr (match d with RFloat => "float" | RInt => "int" | RBool => "bool" | RStr => "str" end)).
+    OScalar (PStr (match d with RFloat => "float" | RInt => "int" | RBool => "bool" | RStr => "str" | RSub => "2f8" end)).
 
   (* for name in names: super().add_variable(name, initial_values.get(name, default_value), dtype=self.dtype) *)
   Fixpoint init_vars (nms : list string) (ivs : list (string * operand)) (default : operand) (d : dreq) (s : state) : res :=
@@ -896,7 +914,7 @@ Definition np_infer (cs : list pyval) : dtype :=
 
 Definition np_astype_dt (src : dtype) (cells : list pyval) (r : dreq) : dtype :=
   match r with
-  | RFloat => DFloat | RInt => DInt | RBool => DBool
+  | RFloat | RSub => DFloat | RInt => DInt | RBool => DBool
   | RStr => match src with
             | DStr k => DStr k
             | DInt => DStr 21 | DFloat => DStr 32 | DBool => DStr 5
